@@ -407,6 +407,12 @@ fn inert(c: char) -> bool {
         || matches!(
             c,
             '\u{00e9}'
+                // compatibility characters: NFC leaves them alone (only NFKC/NFKD fold them)
+                | '\u{fb01}'
+                | '\u{00b2}'
+                | '\u{ff11}'
+                | '\u{2122}'
+                | '\u{2160}'
                 | '\u{00c5}'
                 | '\u{00f6}'
                 | '\u{00df}'
